@@ -7,11 +7,12 @@ Line-protocol driver for the C11 correspondence: evaluates the definitions of
 Input (tokens separated by single spaces; one output line per input line):
   reset                                   start a case                         -> ok
   class <0|1>                             next class of the hierarchy (base first; 1 = @spec_class) -> ok
-  mem <n> <kind> <c> <o> <a> <dflt> <reads> <inv>
+  mem <n> <kind> <c> <o> <a> <dflt> <reads> <inv> <form>
         member of the last class. kind: attr|attrnd|list|plain|plainnc|prop;
-        c/o/a = cache/overridable/annotated; dflt int; reads = names read by
-        the pool getter (`-` or comma list); inv = invalidated_by keys (`-`, or
-        comma list of names and `*`)                                            -> ok
+        c/o/a = cache/overridable/annotated; dflt int or `[i;j]` list (attr, list,
+        plain); reads = names read by the pool getter (`-` or comma list); inv =
+        invalidated_by keys (`-`, or comma list of names and `*`); form:
+        std | viaattr (`n: T = Attr(...)`) | bareattr (`n = Attr(...)`, no annotation) -> ok
   new <kwargs>                            construct instance 0 (`-` or `n=v,...`)
   op <i> <inplace> <opname> <args>        see `parseOp`
 Output of new/op: `<outcome> ;; calls=<names> ;; <instances>`
@@ -43,8 +44,9 @@ structure DSt where
   isList  : List Name := []
   world   : World DVal := []
 
+/-- `R.kind` of `Tbl.resolveWith`: attribute resolution on the effective declarations -/
 def kindOfD (st : DSt) (n : Name) : Kind DVal :=
-  match lookupMember (declsOf st.classes) n with
+  match lookupMember (effAll false st.classes) n with
   | some m => m.kind
   | none => .plain none
 
@@ -180,23 +182,31 @@ def handle (st : DSt) (line : String) : DSt × String :=
   match (line.trimAscii.toString.splitOn " ").filter (· ≠ "") with
   | ["reset"] => ({}, "ok")
   | ["class", sp] => ({ st with classes := ⟨sp == "1", []⟩ :: st.classes }, "ok")
-  | ["mem", n, kind, c, o, a, dflt, reads, inv] =>
-    match n.toNat?, dflt.toInt?, parseNames reads, parseKeys inv, st.classes with
+  | ["mem", n, kind, c, o, a, dflt, reads, inv, form] =>
+    match n.toNat?, parseVal dflt, parseNames reads, parseKeys inv, st.classes with
     | some n, some d, some rs, some ks, cl :: rest =>
       let k : Option (Kind DVal) := match kind with
-        | "attr" => some (.attr (some (.int d)))
+        | "attr" => some (.attr (some d))
         | "attrnd" => some (.attr none)
-        | "list" => some (.attr (some (.list [])))
-        | "plain" => some (.plain (some (.int d)))
+        | "list" => some (.attr (some d))
+        | "plain" => some (.plain (some d))
         | "plainnc" => some (.plain none)
         | "prop" => some (.prop (c == "1") (o == "1") (a == "1"))
         | _ => none
-      match k with
-      | none => (st, "bad-op")
-      | some k =>
-        let cl' : ClassDecl DVal := { cl with members := cl.members ++ [⟨n, k, ks⟩] }
+      let f : Option Form := match form with
+        | "std" => some .std
+        | "viaattr" => some .viaAttr
+        | "bareattr" => some .bareAttr
+        | _ => none
+      let dIsList := match d with
+        | .list _ => kind == "list" || kind == "plain" || kind == "attr"
+        | _ => false
+      match k, f with
+      | some k, some f =>
+        let cl' : ClassDecl DVal := { cl with members := cl.members ++ [⟨n, k, ks, f⟩] }
         ({ st with classes := cl' :: rest, reads := (n, rs) :: st.reads,
-                   isList := if kind == "list" then n :: st.isList else st.isList }, "ok")
+                   isList := if kind == "list" || dIsList then n :: st.isList else st.isList }, "ok")
+      | _, _ => (st, "bad-op")
     | _, _, _, _, _ => (st, "bad-op")
   | ["new", kw] =>
     match parseKw kw with
